@@ -50,3 +50,7 @@ claim("C05",
       "Bounded symbolic model checking: expected shortfall / topp (all shapes (N,),(N,M),(N,M,K), dims None/0/1/-1, concrete p grid and fully symbolic p with the explorer forking over ceil(pN)) proved equal to minus the mean of the k worst outcomes characterised without sorting (min over k-subsets); value at risk by counting and against the order statistic; entropic risk = (1/a) log mean exp(-a x) through log product-law instances; utilities, EntropicLoss, IsoelasticLoss, OCE and every module's target subtraction; quadratic CVaR: bisect replaced by a contract stub, value proved minimal over every w up to lam*precision^2 for N=2 and first-order optimality + value formula for N<=6.",
       "Exact reals (no overflow statement); N<=6; VaR up to 1e-9*(max-min); QCVaR decade of the spread fixed per case; open known finding F1 (small-spread samples) is reported as KNOWN-FINDING, the complementary region stays checked.",
       "DESIGN.md §3 C05", SMT + " with an assume-guarantee contract stub for bisect")
+claim("C04",
+      "Bounded symbolic model checking of the risk-measure axioms on the real code: expected shortfall (N<=6, p grid): monotone, cash-invariant, convex at weights 1/2 and 1/3, positively homogeneous (incl. a symbolic scale), non-increasing in p, between -max and -min, >= -mean; entropic risk (symbolic a>0, N<=5, also a trailing shape): monotone, cash-invariant, bounds and >= -mean decided in exponential form with tangent-line hint instances; EntropicLoss/IsoelasticLoss monotone, EntropicLoss midpoint-convex (N=2); quadratic CVaR (bisect contract stub): cash-invariant and the bounds lowered by 1/(4 lam) on regular samples.",
+      "Exact reals; N<=6; midpoint-type convexity (continuity lemma); not decided and not claimed: entropic-risk convexity, entropic monotone in a, IsoelasticLoss convexity, quadratic-CVaR monotonicity/convexity (stated in evidence).",
+      "DESIGN.md §3 C04", SMT)
